@@ -123,6 +123,84 @@ def parallelise_facts(tree: ast.AST) -> dict[str, bool]:
     return facts
 
 
+# ------------------------------------------------------------------ placeholder grids
+
+import re
+
+_NUM = r"(-?\d+(?:\.\d+)?)"
+_OPS = {">=": "≥", ">": ">", "<=": "≤", "<": "<"}
+
+
+def _rat(txt: str) -> str:
+    from fractions import Fraction
+
+    q = Fraction(txt)
+    return f"({q.numerator} : Rat)" if q.denominator == 1 else f"(({q.numerator} : Rat) / {q.denominator})"
+
+
+def grid_helpers(tree: ast.AST) -> list[str]:
+    """`_time_points_of_time_course` / `_time_points_of_protocol`: the statements must have exactly the shapes below;
+    the comparison operators, the constants, the `+ k` of the points per step and the `[d:]` slice are SLOTS that are
+    rendered into Lean (the theorems of Props/C09 identify the result with the grids of successful runs)"""
+    tc = [ast.unparse(x) for x in body_of(find_function(tree, "_time_points_of_time_course"))]
+    pats = [r"time_points = np\.array\(time_points, dtype=float\)",
+            rf"time_points = time_points\[time_points (>=|>) {_NUM}\]",
+            rf"if len\(time_points\) == 0 or time_points\[0\] != {_NUM}:\n    time_points = np\.insert\(time_points, 0, {_NUM}\)",
+            r"return time_points"]
+    if len(tc) != len(pats):
+        raise Unsupported("_time_points_of_time_course: statement count")
+    ms = []
+    for st, pat in zip(tc, pats):
+        m = re.fullmatch(pat, st)
+        if m is None:
+            raise Unsupported(f"_time_points_of_time_course: statement outside the subset: {st}")
+        ms.append(m)
+    op, c0 = ms[1].group(1), ms[1].group(2)
+    t1, t2 = ms[2].group(1), ms[2].group(2)
+    from fractions import Fraction
+
+    if Fraction(t1) != Fraction(t2):
+        raise Unsupported("_time_points_of_time_course: tests for one start, inserts another")
+    out = [f"/-- `time_points[time_points {op} {c0}]` -/\ndef tcKeeps (t : Rat) : Bool := decide (t {_OPS[op]} {_rat(c0)})\n",
+           f"/-- the start that is inserted when missing -/\ndef tcStart : Rat := {_rat(t2)}\n",
+           "/-- `_time_points_of_time_course` -/\ndef tcPlaceholder (tps : List Rat) : List Rat :=\n"
+           "  let kept := tps.filter tcKeeps\n"
+           "  if kept.length == 0 || kept.head? != some tcStart then tcStart :: kept else kept\n"]
+    pr = [ast.unparse(x) for x in body_of(find_function(tree, "_time_points_of_protocol"))]
+    pats = [r"ends = np\.array\(cast\(pd\.TimedeltaIndex, protocol\.index\)\.total_seconds\(\), dtype=float\)",
+            rf"if time_points is not None:\n    points = np\.union1d\(ends, np\.array\(time_points, dtype=float\)\)\n"
+            rf"    return np\.insert\(points\[\(points (>=|>) {_NUM}\) & \(points (<=|<) ends\[-1\]\)\], 0, {_NUM}\)",
+            rf"grid, t_start = \(\[np\.array\(\[{_NUM}\]\)\], {_NUM}\)",
+            r"for t_end in ends:\n    grid\.append\(np\.linspace\(t_start, t_end, cast\(int, time_points_per_step\) \+ (\d+)\)\[(\d+):\]\)\n    t_start = t_end",
+            r"return np\.concatenate\(grid\)"]
+    if len(pr) != len(pats):
+        raise Unsupported("_time_points_of_protocol: statement count")
+    ms = []
+    for st, pat in zip(pr, pats):
+        m = re.fullmatch(pat, st)
+        if m is None:
+            raise Unsupported(f"_time_points_of_protocol: statement outside the subset: {st}")
+        ms.append(m)
+    lo_op, lo_c, hi_op, ins = ms[1].groups()
+    g0, s0 = ms[2].groups()
+    if Fraction(g0) != Fraction(s0):
+        raise Unsupported("_time_points_of_protocol: the grid does not start where the first step starts")
+    k, d = ms[3].groups()
+    out += [f"/-- `points[(points {lo_op} {lo_c}) & (points {hi_op} ends[-1])]` -/\n"
+            f"def ptcKeeps (t tEnd : Rat) : Bool := decide (t {_OPS[lo_op]} {_rat(lo_c)}) && decide (t {_OPS[hi_op]} tEnd)\n",
+            f"def ptcStart : Rat := {_rat(ins)}\n",
+            f"def protoStart : Rat := {_rat(s0)}\n",
+            f"/-- `np.linspace(t_start, t_end, time_points_per_step + {k})[{d}:]` -/\n"
+            f"def protoPoints (n : Nat) : Nat := n + {k}\ndef protoDrop : Nat := {d}\n",
+            "/-- the loop of `_time_points_of_protocol` (`linspace` is the model's `np.linspace`) -/\n"
+            "def protoSteps (linspace : Rat → Rat → Nat → List Rat) (n : Nat) : Rat → List Rat → List Rat\n"
+            "  | _, [] => []\n"
+            "  | tStart, tEnd :: rest => (linspace tStart tEnd (protoPoints n)).drop protoDrop ++ protoSteps linspace n tEnd rest\n",
+            "def protoPlaceholder (linspace : Rat → Rat → Nat → List Rat) (n : Nat) (ends : List Rat) : List Rat :=\n"
+            "  protoStart :: protoSteps linspace n protoStart ends\n"]
+    return out
+
+
 # ------------------------------------------------------------------ the drivers
 
 def kwargs(call: ast.Call) -> dict[str, ast.expr]:
@@ -245,6 +323,7 @@ def generate(repo: Path, outdir: Path) -> bool:
            f"def workersCatchZeroDivision : Bool := {b(workers_catch)}\n",
            "/-- `Simulation.default` does not raise for a model that cannot be evaluated at its initial state -/\n"
            f"def placeholderSurvivesZeroDivision : Bool := {b(survives)}\n",
+           *grid_helpers(scan_t),
            "def drivers : List Driver := ["]
     rows = []
     for d in drivers:
